@@ -893,7 +893,11 @@ func verifyHash256(quote *pb.QuoteV4) error {
 	qeAuthData := qeReportCertificationData.GetQeAuthData().GetData()
 	attestKey := quote.GetSignedData().GetEcdsaAttestationKey()
 
-	concatOfAttestKeyandQeAuthData := append(attestKey, qeAuthData...)
+	// Concatenate into a fresh buffer: appending to attestKey would write into the spare
+	// capacity behind the caller's attestation key slice.
+	concatOfAttestKeyandQeAuthData := make([]byte, 0, len(attestKey)+len(qeAuthData))
+	concatOfAttestKeyandQeAuthData = append(concatOfAttestKeyandQeAuthData, attestKey...)
+	concatOfAttestKeyandQeAuthData = append(concatOfAttestKeyandQeAuthData, qeAuthData...)
 	var hashedMessage []byte
 	hashedConcatOfAttestKeyandQeAuthData := sha256.Sum256(concatOfAttestKeyandQeAuthData)
 	hashedMessage = hashedConcatOfAttestKeyandQeAuthData[:]
